@@ -210,6 +210,7 @@ type Spec struct {
 	MaxFault int
 	Only     string    `json:",omitempty"`
 	Replay   *Scenario `json:",omitempty"`
+	Variants []string  `json:",omitempty"` // replay the scenario once per entry-name prefix (shrinker)
 	Digest   map[string]uint64
 	NoUnopt  bool
 	Samples  int
@@ -481,6 +482,36 @@ func Main(ref, opt, unopt []vrt.Entry) {
 	}
 	rn := &runner{spec: sp, impls: map[string]Impl{"ref": index(ref), "opt": index(opt), "unopt": index(unopt)},
 		res: &Result{Counters: map[string]int{}, Sets: map[string][]uint64{}, Skipped: map[string]string{}}}
+	if len(sp.Variants) > 0 {
+		// shrinker: the same scenario on every variant of the program
+		base := sp.Replay
+		for _, pre := range sp.Variants {
+			sc := cloneSc(base)
+			for i := range sc.Iters {
+				sc.Iters[i].Func = pre + sc.Iters[i].Func
+			}
+			rn.spec.Replay = sc
+			e, ok := rn.impls["opt"][pre+sp.Only]
+			if !ok {
+				continue
+			}
+			before := len(rn.res.Mismatches)
+			func() {
+				defer func() {
+					if p := recover(); p != nil {
+						rn.res.Skipped[pre] = fmt.Sprint(p)
+					}
+				}()
+				rn.replay(e)
+			}()
+			for i := before; i < len(rn.res.Mismatches); i++ {
+				rn.res.Mismatches[i].Func = pre + sp.Only
+			}
+		}
+		out, _ := json.Marshal(rn.res)
+		os.Stdout.Write(out)
+		return
+	}
 	names := make([]string, 0, len(opt))
 	for _, e := range opt {
 		names = append(names, e.Name)
